@@ -314,7 +314,8 @@ func (n *node[T]) checkAmbiguous(pattern string, hasNonString bool) (*node[T], b
 		s0 := segs[0]
 
 		if seg.IsAmbiguous(s0) {
-			node, hasNonString, err := c.checkAmbiguous(pattern[s0.AmbiguousLen():], true)
+			// s0.Value 即 s0 在 pattern 中的原文，{name:} 中的 : 并未计入 AmbiguousLen。
+			node, hasNonString, err := c.checkAmbiguous(pattern[len(s0.Value):], true)
 			if err != nil {
 				return nil, false, err
 			}
